@@ -265,9 +265,9 @@ int main(int argc, char **argv) {
         else if (!strncmp(op, "cbadd:", 6)) { int i, j; if (sscanf(op + 6, "%d>%d", &i, &j) == 2 && i >= 0 && i < 64) cb_next[i] = j + 1; }
         else if (!strcmp(op, "start")) { vf_phase = 2; vf_e1_mark(7, 0, 0); parsec_context_start(ctx); }
         else if (!strcmp(op, "wait")) { parsec_context_wait(ctx); vf_e1_mark(1, -1, 0); vf_phase = 1; }
-        else if (!strcmp(op, "test")) { while (!parsec_context_test(ctx)) usleep(50); vf_e1_mark(6, -1, 0); }
+        else if (!strcmp(op, "test")) { (void)parsec_context_test(ctx); }
         else if (!strncmp(op, "tpwait:", 7)) { int i = atoi(op + 7); parsec_taskpool_wait(tps[i]); vf_e1_mark(4, i, 0); }
-        else if (!strncmp(op, "tptest:", 7)) { int i = atoi(op + 7); while (!parsec_taskpool_test(tps[i])) usleep(50); vf_e1_mark(5, i, 0); }
+        else if (!strncmp(op, "tptest:", 7)) { int i = atoi(op + 7); for (int k = 0; k < 200; k++) (void)parsec_taskpool_test(tps[i]); /* progress from the main thread; no verdict */ }
         else { fprintf(stderr, "unknown scenario op %s\n", op); return 3; }
     }
     free(script);
